@@ -298,7 +298,7 @@ class Radio:
             return
         self.txing = True
         self.arc_cnt = 0
-        self.cur_cycle = {"start": self.sim.now, "data": bytes(ent["data"]), "pid": ent["pid"], "attempts": 0,
+        self.cur_cycle = {"start": self.sim.now, "data": bytes(ent["data"]), "pid": ent["pid"], "attempts": 0, "upload_t": ent["t"],
                           "end": None, "result": None, "ackpl": None, "expects_ack": None,
                           "addr": bytes(self.a[0x10][: self.aw])}
         self.cycles.append(self.cur_cycle)
